@@ -38,7 +38,21 @@ def main(argv=None):
                                 runs=args.runs or None)
 
     if args.cmd == "replay":
-        case, res = runner.replay_file(args.path, known=None)
+        try:
+            case, res = runner.replay_file(args.path, known=None)
+        except runner.RunTimeout:
+            # a replay that does not return: reproduces a recorded timeout, anything else is news
+            with open(args.path) as fobj:
+                case = json.load(fobj)
+            sig = "%s|timeout|" % runner.TERMINATION_PROPS.get(case["property"], "run.returns")
+            if args.json:
+                print("REPLAY-RESULT " + json.dumps({"signature": sig, "digest": "timeout"}))
+                return 0
+            print("replay %s: property=%s did not return within %d s" %
+                  (args.path, case["property"], runner.RUN_TIMEOUT))
+            print("violation: %s :: the run did not return" % sig)
+            print("VIOLATION property=%s replay=%s" % (case["property"], args.path))
+            return 1
         sig = res.violation["signature"] if res.violation else None
         if args.json:
             print("REPLAY-RESULT " + json.dumps({"signature": sig, "digest": res.digest}))
